@@ -4,6 +4,8 @@ import (
 	"bytes"
 	"encoding/hex"
 	"fmt"
+	"io"
+	"os"
 	"net"
 	"sort"
 	"strings"
@@ -67,6 +69,16 @@ func (c *serverConn) ReadFrom(p []byte) (int, net.Addr, error) {
 	r := c.reads[c.pos]
 	c.pos++
 	if len(r) < 4 || r[0] != 0 {
+		if len(r) == 2 && r[0] == 1 {
+			switch r[1] {
+			case 3:
+				return 0, nil, os.ErrDeadlineExceeded
+			case 4:
+				return 0, nil, io.EOF
+			case 5:
+				return 0, nil, tempErr{}
+			}
+		}
 		return 0, nil, fmt.Errorf("scripted read error")
 	}
 	if c.pos < len(c.reads) && len(c.reads[c.pos]) == 2 && c.reads[c.pos][0] == 1 && c.reads[c.pos][1] == 2 && c.closeServer != nil {
@@ -75,6 +87,13 @@ func (c *serverConn) ReadFrom(p []byte) (int, net.Addr, error) {
 	}
 	return copy(p, r[4:]), peerOf(r[1], int(r[2])<<8|int(r[3])), nil
 }
+// tempErr is a net.Error that calls itself temporary and a timeout.
+type tempErr struct{}
+
+func (tempErr) Error() string   { return "scripted temporary error" }
+func (tempErr) Timeout() bool   { return true }
+func (tempErr) Temporary() bool { return true }
+
 func (c *serverConn) WriteTo(p []byte, addr net.Addr) (int, error) { return len(p), nil }
 func (c *serverConn) Close() error {
 	c.once.Do(func() { c.wasClosed = true; close(c.closed) })
@@ -292,8 +311,16 @@ func genC14(r *Run) {
 			if k == closeAt {
 				if k > 0 && r.Rng.Intn(2) == 0 {
 					reads = append(reads, []byte{1, 2}) // Close lands while the previous read is returning
-				} else {
+				} else if r.Rng.Intn(2) == 0 {
 					reads = append(reads, []byte{1})
+				} else {
+					// the failed read is of another kind: a deadline that expired (a net.Error whose Timeout() is
+					// true), end of file, an error that calls itself temporary - a failed read ends the loop all the same
+					reads = append(reads, []byte{1, byte(r.Pick(3, 3, 4, 5))})
+					// ... and what follows it in the script is never read
+					for j := r.Rng.Intn(3); j > 0; j-- {
+						reads = append(reads, append([]byte{0, 2, 0, 68}, r.validWire(3)...))
+					}
 				}
 				break
 			}
@@ -407,6 +434,12 @@ func genC14(r *Run) {
 		evals++
 		got := (len(outs) - 1) / 3
 		wantConsumed := len(reads)
+		for i, rd := range reads {
+			if len(rd) < 4 || rd[0] != 0 {
+				wantConsumed = i + 1 // nothing is read after a failed read
+				break
+			}
+		}
 		if n := len(reads); n > 0 && len(reads[n-1]) == 2 && reads[n-1][0] == 1 && reads[n-1][1] == 2 {
 			wantConsumed-- // the server was closed while the previous datagram was returned: the error read is never taken
 		}
